@@ -55,6 +55,12 @@ add('C14', 'get-copies-key', 'R14.1', [E('src/raw/mod.rs', "        let mut node
 add('C18', 'complement-can-match-from-can-match', 'R18.1', [E('src/automaton/mod.rs', "        !self.0.will_always_match(&state.0)\n    }", "        !self.0.can_match(&state.0)\n    }")])
 add('C18', 'ref-impl-wrong-method', 'R18.3', [E('src/automaton/mod.rs', "    fn can_match(&self, state: &T::State) -> bool {\n        (*self).can_match(state)", "    fn can_match(&self, state: &T::State) -> bool {\n        (*self).is_match(state)")])
 add('C01', 'count-on-duplicate-path', 'R01.2', [E('src/raw/build.rs', "            assert!(out.is_zero());\n            return Ok(());\n        }\n        self.len += 1;", "            assert!(out.is_zero());\n            self.len += 1;\n            return Ok(());\n        }\n        self.len += 1;")])
+# keep the thorough tier's running time bounded: at most 8 seeded changes per property (evenly spread over the waves), all hand-written ones
+for pid, lst in C.items():
+    sd = [c for c in lst if c['name'].startswith('seeded:')]
+    if len(sd) > 8:
+        keep = {sd[round(i * (len(sd) - 1) / 7)]['name'] for i in range(8)}
+        C[pid] = [c for c in lst if not c['name'].startswith('seeded:') or c['name'] in keep]
 for pid, lst in C.items():
     json.dump(lst, open(os.path.join(V, 'canaries', pid + '.json'), 'w'), indent=1)
 print({k: len(v) for k, v in sorted(C.items())})
